@@ -181,6 +181,6 @@ def Spec.apply (E : Env) (op : Op) (x y : OV) : R Val :=
     -- swapped and LeftFirst = false, so in every case the source-left operand is converted first
     (Spec.toPrimitive x .number []).bind fun px l1 =>
     (Spec.toPrimitive y .number l1).bind fun py l2 =>
-      .ok (.bool (Spec.compare E strLt c px py)) l2
+      .ok (.bool (Spec.compare E Spec.unitLt c px py)) l2
 
 end OttoVerif.C05.Obj
